@@ -59,6 +59,9 @@ func parseE2E(a []string) *e2eCase {
 			c.cc.frag, _ = strconv.Atoi(v)
 		case "ccs":
 			c.cc.ccs = v == "1"
+		case "rnd":
+			n, _ := strconv.ParseUint(v, 16, 8)
+			c.cc.rnd, c.cc.rndSet = byte(n), true
 		case "tlsmax":
 			n, _ := strconv.ParseUint(v, 16, 16)
 			c.cc.maxVer = uint16(n)
@@ -286,6 +289,26 @@ func init() {
 	})
 
 	register("e2emulti", "C06: N concurrent clients with pairwise different hellos and HTTP/2 preambles against ONE stack", func(c *ctx) {
+		// clients whose ClientHellos carry the SAME random (a broken or deterministic RNG, a peer replaying a random it saw
+		// on the wire) but differ elsewhere: nothing keyed by a field of the hello may carry data from one to the other
+		for _, gap := range []int{0, 150} {
+			rq := e2eReqTok("GET", "/", "example.test", "verif/1.0", true, "mspa", nil)
+			mk := func(k int, proto, alpn, opts string) string {
+				fr := "-"
+				if proto == "h2" {
+					fr = "S:,H:1.1.-.0.0,H:3.1.-.1.0"
+				}
+				return fmt.Sprintf("pfx=c%d- delay=%d proto=%s client=go alpn=%s sni=example.test peer=127.0.0.1 seg=0 rnd=00%s reqs=%s frames=%s",
+					k, k*gap, proto, alpn, opts, rq+";"+rq, fr)
+			}
+			c.tag("same-client-random")
+			c.op("e2emulti probe=1 ph=0 maxprio=10000 || " + strings.Join([]string{
+				mk(0, "h1", "http/1.1", " tlsmax=0303 ciphers="+hx(u16s([]uint16{0xc02b, 0xc02c}))),
+				mk(1, "h2", "h2", " curves="+hx(u16s([]uint16{29}))),
+				mk(2, "h1", "-", " curves="+hx(u16s([]uint16{23, 24}))),
+				mk(3, "h2", "h2,http/1.1", ""),
+			}, " || "))
+		}
 		for i := 0; i < c.count; i++ {
 			r := c.rng.fork()
 			n := []int{2, 4, 8, 16, 32}[r.intn(5)]
@@ -321,6 +344,26 @@ func init() {
 			c.op(fmt.Sprintf("e2e proto=h2 client=%s alpn=h2 sni=example.test peer=127.0.0.1 seg=0 probe=0 ph=0 maxprio=10000 reqs=%s frames=%s",
 				client, strings.Join([]string{rq("mspa"), rq("pams"), rq("samp")}, ";"),
 				"S:,H:1.1.-.0.0,P:9.0.0.100,H:3.1.5_1_15.1.0,S:4.1048576;3.50,W:0.77,H:5.1.-.2.0"))
+		}
+		// a long-lived HTTP/2 connection that has already carried many distinct header names (per-connection caches of the
+		// server are full) and only THEN carries forged fingerprint / forwarding headers, under names it has not used before
+		for _, client := range []string{"go", "utls-firefox"} {
+			filler := func(k int) [][2]string {
+				var e [][2]string
+				for j := 0; j < 36; j++ {
+					e = append(e, [2]string{fmt.Sprintf("x-verif-filler-%d-%02d-abcdefghijklmnopqrstuvwxyz", k, j), "v"})
+				}
+				return e
+			}
+			forged := [][2]string{{"x-ja3-fingerprint", "forged"}, {"x-ja4-fingerprint", "forged"}, {"x-http2-fingerprint", "forged"},
+				{"x-forwarded-for", "1.1.1.1"}, {"x-forwarded-host", "evil.test"}, {"x-forwarded-proto", "http"}}
+			c.tag("h2-forged-headers-after-many-distinct-names")
+			c.op(fmt.Sprintf("e2e proto=h2 client=%s alpn=h2 sni=example.test peer=127.0.0.1 seg=0 probe=0 ph=0 maxprio=10000 reqs=%s frames=%s",
+				client, strings.Join([]string{
+					e2eReqTok("GET", "/", "example.test", "verif/1.0", true, "mspa", filler(0)),
+					e2eReqTok("GET", "/", "example.test", "verif/1.0", true, "mspa", filler(1)),
+					e2eReqTok("POST", "/p", "example.test", "verif/1.0", true, "mspa", forged)}, ";"),
+				"S:,H:1.1.-.0.0,H:3.1.-.1.0,H:5.1.-.2.0"))
 		}
 		// the hello and an early change_cipher_spec record in one write, on both protocols
 		for _, pa := range [][2]string{{"h1", "http/1.1"}, {"h2", "h2"}} {
@@ -363,6 +406,11 @@ func genE2EScenario(c *ctx, r *rng, sub bool) string {
 				alpn = "h2"
 			}
 			sni := []string{"example.test", "localhost", "-", "example.test"}[r.intn(4)]
+			if strings.HasPrefix(kind, "utls") && r.chance(1, 6) {
+				// server_name holding an IP literal (forbidden by RFC 6066, sent by real clients, accepted by crypto/tls)
+				sni = []string{"192.0.2.7", "2001:db8::7", "127.0.0.1"}[r.intn(3)]
+				c.tag("sni:ip-literal")
+			}
 			peer := []string{"127.0.0.1", "127.0.0.2", "127.0.0.77"}[r.intn(3)]
 			extraOpts := ""
 			if kind == "go" {
